@@ -59,14 +59,21 @@ type Net struct {
 	// Watchdog bounds every blocking wait of the test side (wall clock; its
 	// expiry is reported as inconclusive by the callers, never as a verdict).
 	Watchdog time.Duration
-	// KeepLog=false drops events (only counters kept) for bulk workloads.
-	KeepLog bool
+	// keepLog=false drops events (only counters kept) for bulk workloads.
+	keepLog bool
 	counts  map[string]int
 }
 
 // New creates a world.
 func New() *Net {
-	return &Net{conns: map[int]*Conn{}, Watchdog: 60 * time.Second, KeepLog: true, counts: map[string]int{}}
+	return &Net{conns: map[int]*Conn{}, Watchdog: 60 * time.Second, keepLog: true, counts: map[string]int{}}
+}
+
+// SetKeepLog switches event retention on or off (counters are always kept).
+func (n *Net) SetKeepLog(v bool) {
+	n.mu.Lock()
+	n.keepLog = v
+	n.mu.Unlock()
 }
 
 // Log appends an event and returns its timestamp.
@@ -75,7 +82,7 @@ func (n *Net) Log(conn int, kind string, num int, note string) int64 {
 	n.clock++
 	t := n.clock
 	n.counts[kind]++
-	if n.KeepLog {
+	if n.keepLog {
 		n.events = append(n.events, Event{T: t, Conn: conn, Kind: kind, N: num, Note: note})
 	}
 	n.mu.Unlock()
